@@ -133,6 +133,12 @@ def judge_same_map(prop: str, mon: str, where: str, before: Any, after: Any, **c
                       m_after=np.array2string(ma, precision=4, threshold=80), **ctx)
 
 
+def _all_ops(op: Any) -> list[Any]:
+    out: list[Any] = []
+    dense.walk(op, out.append)
+    return out
+
+
 def compose(ops: list[Any], in_structure: Any) -> Any:
     from furax._base.core import CompositionOperator, IdentityOperator
 
@@ -330,7 +336,7 @@ def judge_adjoint(prop: str, mon: str, where: str, op: Any, opt: Any) -> None:
     tol = dense.tol_for(op, opt)
     ok, err = dense.close(m.T, mt, tol)
     LOG.evaluated(mon)
-    if np.allclose(m, m.T) and m.shape[0] == m.shape[1]:
+    if m.shape[0] == m.shape[1] and np.allclose(m, m.T):
         LOG.count('C03.matrix', 'symmetric')
     else:
         LOG.count('C03.matrix', 'non-symmetric')
@@ -407,7 +413,12 @@ def h_mv(orig: Any, self: Any, x: Any) -> Any:
         if not dense.struct_eq_loose(dense.struct_of(x), self.in_structure()):
             LOG.skipped(mon, 'input-not-in-structure')
             return
-        declared = self.out_structure()
+        try:
+            declared = self.out_structure()
+        except RecursionError:
+            # this mv call is the one made by out_structure() itself (eval_shape of the same method)
+            LOG.skipped(mon, 'called-by-out_structure')
+            return
         got = dense.struct_of(result)
         LOG.evaluated(mon)
         LOG.count('C05.mv.class', cls)
@@ -449,10 +460,10 @@ def h_inverse(orig: Any, self: Any) -> Any:
     if not dense.is_furax(self):
         LOG.skipped(mon, 'foreign')
         return result
-    if square is False:
+    if square is False and type(result).__name__ == 'InverseOperator':
         LOG.evaluated(mon)
         LOG.violation('C06', mon, f'{cls}.inverse/non-square-accepted',
-                      'a non-square operator was given an inverse', expr=dense.describe(self),
+                      'a non-square operator was given a solver-based inverse', expr=dense.describe(self),
                       result=dense.describe(result))
         return result
 
@@ -468,28 +479,40 @@ def judge_inverse(mon: str, where: str, op: Any, inv: Any) -> None:
         LOG.evaluated(mon)
         LOG.violation('C06', mon, f'{where}/not-an-operator', repr(type(inv)), expr=dense.describe(op))
         return
-    for side in ('in_structure', 'out_structure'):
-        v = structure_verdict(getattr(inv, side)(), getattr(op, side)())
+    for side, other in (('in_structure', 'out_structure'), ('out_structure', 'in_structure')):
+        v = structure_verdict(getattr(inv, side)(), getattr(op, other)())
         if v != 'equal':
             LOG.evaluated(mon)
             LOG.violation('C06', mon, f'{where}/{side}{"-weak-type-only" if v == "weak-only" else ""}',
-                          'inverse structure differs', expr=dense.describe(op),
+                          f'inverse {side} is not the operator {other}', expr=dense.describe(op),
                           got=dense.struct_str(getattr(inv, side)()),
-                          expected=dense.struct_str(getattr(op, side)()))
+                          expected=dense.struct_str(getattr(op, other)()))
             return
     m = dense.matrix(op)
+    if m.shape[0] != m.shape[1]:
+        LOG.skipped(mon, 'sizes-differ')
+        return
     lazy = 'InverseOperator' in dense.class_names(inv) and 'InverseOperator' not in dense.class_names(op)
     if m.shape[0] > 0 and np.linalg.matrix_rank(m) < m.shape[0]:
         kind = 'singular'
     else:
         kind = 'lazy' if lazy else 'closed-form'
-    if kind == 'singular' and lazy:
-        LOG.skipped(mon, 'singular-lazy')
+    if lazy and any(getattr(i, 'dtype', None) == bool for o in _all_ops(op) for i in
+                    (getattr(o, 'indices', ()) if type(o).__name__ == 'IndexOperator' else
+                     ((o.mask,) if type(o).__name__ == 'PackOperator' else ()))):
+        LOG.skipped(mon, 'lazy-operand-boolean-mask')  # cannot be traced by the solver (see C18)
         return
+    if lazy:
+        # the solver-based inverse is only claimed for symmetric positive-definite operands of
+        # bounded condition number
+        spd = kind != 'singular' and np.allclose(m, m.T, atol=1e-6) and np.linalg.eigvalsh((m + m.T) / 2).min() > 0
+        if not spd:
+            LOG.skipped(mon, 'lazy-operand-not-spd')
+            return
+        if np.linalg.cond(m) > 60:
+            LOG.skipped(mon, 'lazy-operand-ill-conditioned')
+            return
     cond = np.linalg.cond(m) if m.size and kind != 'singular' else 1.0
-    if lazy and cond > 60:
-        LOG.skipped(mon, 'ill-conditioned-lazy')
-        return
     try:
         mi = dense.matrix(inv)
     except OracleError as exc:
@@ -558,6 +581,11 @@ def judge_arith(mon: str, where: str, kind: str, left: Any, right: Any, result: 
         if isop(o) and not dense.is_furax(o):
             LOG.skipped(mon, 'foreign')
             return
+    if isinstance(result, np.ndarray):
+        # NumPy's own binary-operator dispatch took the operation over (object array of operators):
+        # no operator was yielded, NumPy semantics are outside the property
+        LOG.skipped(mon, 'numpy-dispatch')
+        return
     if not isop(result):
         LOG.evaluated(mon)
         LOG.violation('C02', mon, f'{where}/not-an-operator', repr(type(result)))
@@ -571,7 +599,11 @@ def judge_arith(mon: str, where: str, kind: str, left: Any, right: Any, result: 
         ref = arith_reference(kind, ml, None)
     else:
         if kind == 'matmul' and ml.shape[1] != mr.shape[0]:
-            raise OracleError('shape')
+            LOG.skipped(mon, 'incompatible-operands')
+            return
+        if kind in ('add', 'sub') and ml.shape != mr.shape:
+            LOG.skipped(mon, 'incompatible-operands')
+            return
         ref = arith_reference(kind, ml, mr)
     try:
         got = dense.matrix(result)
@@ -603,6 +635,10 @@ def judge_arith(mon: str, where: str, kind: str, left: Any, right: Any, result: 
                               expected=dense.struct_str(exp))
                 return
     tol = dense.tol_for(*(o for o in (left, right, result) if isop(o)))
+    if kind in ('mul', 'div'):
+        k = right if isop(left) else left
+        if getattr(k, 'dtype', None) is not None and np.dtype(k.dtype).itemsize < 8:
+            tol = max(tol, 2e-6)  # a float32 scalar limits the accuracy of k*A and A/k
     ok, err = dense.close(ref, got, tol)
     if not ok:
         LOG.violation('C02', mon, f'{where}/matrix', f'not the {kind} of the operands\' matrices '
